@@ -1,34 +1,34 @@
 SPECIFICATION MCSpec
 CONSTANTS
   SetupIds = {1,2,3}
-  RegIds = {1}
-  FileIds = {1}
+  RegIds = {1,2,3,4,5,6}
+  FileIds = {1,2,3,4,5,6}
   CliIds = {1}
-  SrvIds = {1}
+  SrvIds = {1,2,3}
   TrackObs = TRUE
   TrackDeps = FALSE
   Dev = "none"
-  SetupPlan <- Bind_SetupPlan
-  RegPlan <- Bind_RegPlan
-  RegIdus <- Bind_RegIdus
-  RegIdss <- Bind_RegIdss
-  RegKsfs <- Bind_RegKsfs
-  CliPw <- Bind_CliPw
-  SrvSetups <- Bind_SrvSetups
-  SrvRecs <- Bind_SrvRecs
-  SrvCids <- Bind_SrvCids
-  SrvCtxs <- Bind_SrvCtxs
-  SrvIdus <- Bind_SrvIdus
-  SrvIdss <- Bind_SrvIdss
-  CliCtxs <- Bind_CliCtxs
-  CliIdus <- Bind_CliIdus
-  CliIdss <- Bind_CliIdss
-  CliKsfs <- Bind_CliKsfs
-  MutPlan <- Bind_MutPlan
+  SetupPlan <- Obliv_SetupPlan
+  RegPlan <- Obliv_RegPlan
+  RegIdus <- Obliv_RegIdus
+  RegIdss <- Obliv_RegIdss
+  RegKsfs <- Obliv_RegKsfs
+  CliPw <- Obliv_CliPw
+  SrvSetups <- Obliv_SrvSetups
+  SrvRecs <- Obliv_SrvRecs
+  SrvCids <- Obliv_SrvCids
+  SrvCtxs <- Obliv_SrvCtxs
+  SrvIdus <- Obliv_SrvIdus
+  SrvIdss <- Obliv_SrvIdss
+  CliCtxs <- Obliv_CliCtxs
+  CliIdus <- Obliv_CliIdus
+  CliIdss <- Obliv_CliIdss
+  CliKsfs <- Obliv_CliKsfs
+  MutPlan <- Obliv_MutPlan
   Splice = FALSE
   Reloads = FALSE
   ExtFail = FALSE
-  MaxFree = 3
+  MaxFree = 5
 INVARIANT Agreement
 INVARIANT ClientAcceptsOnlyMatched
 INVARIANT ServerAcceptsOnlyMatched
